@@ -468,6 +468,8 @@ func (sh Shape) Gen(tp *simkit.Tape, ids *IDs, signal string) any {
 		return Logs(tp, ids, sh)
 	case "traces":
 		return Traces(tp, ids, sh)
+	case "profiles":
+		return Profiles(tp, ids, sh)
 	}
 	return Metrics(tp, ids, sh)
 }
